@@ -135,7 +135,7 @@ func (tb *LTable) Remove(pos int) LValue {
 	default:
 		oldval = tb.array[i]
 		copy(tb.array[i:], tb.array[i+1:])
-		tb.array[larray-1] = nil
+		tb.array[larray-1] = LNil // never a Go nil: a slice taken earlier (table.sort) may still cover this slot
 		tb.array = tb.array[:larray-1]
 	}
 	return oldval
